@@ -127,6 +127,14 @@ def _recorded(st, orig, name, self, a, k):
     tgt = fn if fn is not None else self.ctx
     fname = str(fn.name) if fn is not None else "<ctx>"
     before = snap_text(fn, tgt)
+    fmap_before = None
+    if fn is None and st.keep_text:
+        fmap_before = {}
+        for f in self.ctx.functions.values():
+            t = snap_text(f, f)
+            h = hashlib.sha1(t.encode()).hexdigest()[:16]
+            st.texts[h] = t
+            fmap_before[str(f.name)] = h
     st.current_pass = name
     try:
         r = orig(self, *a, **k)
@@ -162,7 +170,8 @@ def _recorded(st, orig, name, self, a, k):
                 st.texts[h] = after
                 fmap[fname] = h
         else:
-            st.ctx_fns.pop(id(ctx), None)          # a context-level pass may change every function: re-read next time
+            # a context-level pass (function inliner): every function before and after
+            rec["ctx_before"], rec["ctx_after"] = fmap_before, dict(fmap)
     st.snaps.append(rec)
     if fn is not None:
         if name == "MakeSSA":
